@@ -22,14 +22,17 @@ LOG = []
 CTX = {'eng': None, 'tick': 0}
 
 
-def project(col):
-    """{child: {'s': {'n': value}}} of one colony, read from the hierarchy itself"""
+def project(col, with_e=False):
+    """{child: {'s': {'n': value}}} of one colony, read from the hierarchy itself (with_e: also s.e, the
+    sub-variable only the observing process declares; a child that lacks it shows None there)"""
     node = CTX['eng'].state.get_path((col,))
     out = {}
     for k, ch in node.inner.items():
         s = ch.inner.get('s') if ch.inner else None
         if s is not None and 'n' in s.inner:
             out[k] = {'s': {'n': s.inner['n'].value}}
+            if with_e:
+                out[k]['s']['e'] = s.inner['e'].value if 'e' in s.inner else None
     return out
 
 
@@ -47,14 +50,19 @@ def kit():
     def observe(self, states):
         if CTX['eng'] is None:
             return              # the steps run once inside Engine.__init__, before the engine can be reached
+        own = self.parameters['name'] == 'obs_p'
         LOG.append([self.parameters['name'], CTX['tick'],
-                    {c: states[c] for c in ('A', 'B')}, {c: project(c) for c in ('A', 'B')}])
+                    {c: states[c] for c in ('A', 'B')}, {c: project(c, own) for c in ('A', 'B')}])
+
+    # the observing process declares, for every child of the colonies, a sub-variable of its own (s.e) that no
+    # process inside a compartment declares: it must exist in every child, however the child was created
+    SUBE = {'s': {'n': dict(SUB['s']['n']), 'e': {'_default': 3}}}
 
     class ObsP(Process):
         defaults = {'name': 'obs_p'}
 
         def ports_schema(self):
-            return {'A': {'*': SUB}, 'B': {'*': SUB}}
+            return {'A': {'*': SUBE}, 'B': {'*': SUBE}}
 
         def next_update(self, ts, states):
             observe(self, states)
